@@ -52,3 +52,11 @@ package sanitize
 //@   loop 0 invariant cursor[C16]: l.start >= 0 && l.start <= l.pos && l.pos <= len(l.src) && l.src == old(l.src)
 //@   loop 0 decreases [C16,C10]: len(l.src) - l.pos
 //@   ensures cursor[C16]: l.start >= 0 && l.start <= l.pos && l.pos <= len(l.src) && l.src == old(l.src)
+
+// a string argument becomes one literal: every backslash doubled first, then every quote doubled, then wrapped in quotes
+// (strings.ReplaceAll is the library's total replacement; what the two replacements amount to for the parser is the
+// bounded stand-in's subject)
+//@ func QuoteString
+//@   at-call ReplaceAll:str, "\\" assert backslashes-are-doubled-first[C16]: arg0 == str && arg1 == "\\" && arg2 == "\\\\"
+//@   at-call ReplaceAll:str, "'" assert then-quotes-are-doubled[C16]: arg0 == callresult(ReplaceAll, 0, 1) && arg1 == "'" && arg2 == "''"
+//@   ensures wrapped-in-quotes[C16]: called(ReplaceAll) && result == "'" + callresult(ReplaceAll, 0, 2) + "'"
